@@ -135,8 +135,15 @@ def check_iadd(ctx: Ctx, fi: FuncInfo):
     ctx.check(ok, "MP-remap-all", fi, "`+=` maps qubit i to qubit i", f"append_circuit({other}, list(range({other}.num_qubits)))", f"`{norm(cs[0])}` is not the identity placement of `{other}`", cs[0])
     ap = [c for c in q.calls(fi.node) if dotted(c.func) == "self.append"]
     if ap:
-        ok = [norm(a) for a in ap[0].args] == [f"{other}[0]", f"{other}[1]", f"{other}[2]"]
-        ctx.check(ok, "MP-remap-all", fi, "applied-gate tuple appended as (gate, wires, param)", "", f"`{norm(ap[0])}` permutes the fields of the applied gate", ap[0])
+        st = q.enclosing_stmt(fi, ap[0])
+        got = [norm(q.value_at(fi.body, st, a) or a) for a in ap[0].args]
+        want = [f"{other}[0]", f"{other}[1]", f"{other}[2]"]
+        if got == want:
+            ctx.ok("MP-remap-all", fi, "applied-gate tuple appended as (gate, wires, param)", "", ap[0])
+        elif sorted(got) == sorted(want):
+            ctx.check(False, "MP-remap-all", fi, "applied-gate tuple appended as (gate, wires, param)", "", f"`{norm(ap[0])}` permutes the fields of the applied gate", ap[0])
+        else:
+            ctx.undecided(fi.short, f"`{norm(ap[0])}` does not pass the three fields of `{other}` by index")
     rets = q.returns(fi)
     ctx.check(len(rets) >= 1 and all(norm(r.value) == "self" for r in rets), "MP-remap-all", fi, "returns self", "", "__iadd__ must return self (the augmented assignment re-binds the name to its result)", fi.node)
 
@@ -146,18 +153,33 @@ def check_repeat(ctx: Ctx, fi: FuncInfo):
     loops = q.for_loops(fi.node)
     if len(loops) != 1:
         raise AnchorError(fi.short, "expected one loop")
-    it = norm(loops[0].iter).replace(" ", "")
     binds = single_bindings(fi)
+    it_node, elt = loops[0].iter, None
+    if isinstance(it_node, ast.Name) and it_node.id in binds:
+        it_node = binds[it_node.id]
+    if isinstance(it_node, (ast.GeneratorExp, ast.ListComp)) and len(it_node.generators) == 1 and not it_node.generators[0].ifs:
+        # `for part in (E for _ in range(..))`: the loop runs once per element of the inner iterator and sees E
+        elt, it_node = it_node.elt, it_node.generators[0].iter
+    it = norm(it_node).replace(" ", "")
     rets = q.returns(fi)
     res = norm(rets[0].value) if rets else "?"
     inits = [a.value for a in walk_no_nested(fi.node) if isinstance(a, ast.Assign) and any(isinstance(t, ast.Name) and t.id == res for t in a.targets)]
     init = inits[0] if len(inits) == 1 else None
+    seen = set()
+    while isinstance(init, ast.Name) and init.id in binds and init.id not in seen:  # `base = n_qc; n_qc = self.copy()`
+        seen.add(init.id)
+        init = binds[init.id]
     init_copy = init is not None and "copy" in norm(init) and "self" in norm(init)
     adds = [s for s in loops[0].body if isinstance(s, ast.AugAssign) and norm(s.target) == res and isinstance(s.op, ast.Add)]
-    ok = len(adds) == 1 and ((it == f"range({n}-1)" and init_copy) or (it == f"range(1,{n})" and init_copy))
-    ctx.check(ok, "MP-repeat", fi, "n copies in total", f"one initial copy + {it}", f"initial value `{norm(init) if init is not None else '?'}` plus loop `{it}` does not add up to {n} copies of self", loops[0])
-    if adds:
-        ctx.check("copy" in norm(adds[0].value), "MP-repeat", fi, "each repetition appends a copy", norm(adds[0].value), "the same object is appended repeatedly", adds[0])
+    if not (isinstance(it_node, ast.Call) and dotted(it_node.func) == "range") or len(adds) != 1 or init is None:
+        ctx.undecided(fi.short, f"repeat is not `start from a copy, then add a copy per step of a range`: loop over `{it}`, {len(adds)} additions to `{res}`")
+        return
+    ok = init_copy and it in (f"range({n}-1)", f"range(1,{n})", f"range({n}-1,0,-1)", f"range(0,{n}-1)")
+    ctx.check(ok, "MP-repeat", fi, "n copies in total", f"one initial copy + {it}", f"initial value `{norm(init)}` plus loop `{it}` does not add up to {n} copies of self", loops[0])
+    added = adds[0].value
+    if elt is not None and isinstance(added, ast.Name) and norm(added) == norm(loops[0].target):
+        added = elt
+    ctx.check("copy" in norm(added), "MP-repeat", fi, "each repetition appends a copy", norm(added), "the same object is appended repeatedly", adds[0])
 
 
 def check_remove_identities(ctx: Ctx, fi: FuncInfo):
@@ -172,20 +194,41 @@ def check_remove_identities(ctx: Ctx, fi: FuncInfo):
     if n_idx == 0:
         ctx.ok("MP-index-guard", fi, "no look-behind", "", fi.node, nontrivial=False)
     # skipping (i += 2 / i += 3) only under equality of applied gates
+    loops = [l for l in walk_no_nested(fi.node) if isinstance(l, (ast.While, ast.For))]
+
+    def expanded(e, at):
+        """`e` with the per-iteration temporaries (`current = self.gates[i]`) replaced by what they stand for"""
+        st = q.enclosing_stmt(fi, at)
+        for l in loops:
+            if q.contains(l, st):
+                v = q.value_at(l.body, st, e)
+                return norm(v) if v is not None else None
+        return norm(e)
+
     for n in walk_no_nested(fi.node):
         if isinstance(n, ast.AugAssign) and isinstance(n.op, ast.Add) and isinstance(n.value, ast.Constant) and n.value.value in (2, 3) and isinstance(n.target, ast.Name):
             i = n.target.id
             k = n.value.value
-            facts = [(norm(e), pol) for e, pol in guard_facts(fi, n)]
+            facts = [(expanded(e, n), pol) for e, pol in guard_facts(fi, n)]
+            if any(f is None for f, _ in facts):
+                ctx.undecided(fi.short, f"a condition that guards `{norm(n)}` reads a name that is re-bound before the skip")
+                continue
             want = f"self.gates[{i}] == self.gates[{i} + {k - 1}]"
-            ok = any(pol and f == want for f, pol in facts)
+            ok = any(pol and f in (want, f"self.gates[{i} + {k - 1}] == self.gates[{i}]") for f, pol in facts)
             if k == 3:
                 ok = ok and any(pol and "Barrier" in f and f"self.gates[{i} + 1]" in f for f, pol in facts)
             bound = any(pol and f.replace(" ", "") in (f"{i}<len_g-{k - 1}", f"{i}<(len_g-{k - 1})", f"{i}+{k - 1}<len_g") for f, pol in facts)
             ctx.check(ok and bound, "MP-index-guard", fi, f"drop {k} entries only for an equal pair" + (" around a barrier" if k == 3 else ""), want, f"`{norm(n)}` skips gates without `{want}` (and the index bound) holding: gates that do not cancel are removed", n)
     # kept gates go to result unchanged
     app = [c for c in q.method_calls(fi.node, "append") if norm(c.func.value) == "result"]
-    ctx.check(len(app) == 1 and norm(app[0].args[0]).startswith("self.gates["), "MP-index-guard", fi, "all other gates are kept unchanged", "", "kept gates are altered", fi.node)
+    if len(app) == 1 and app[0].args:
+        kept = expanded(app[0].args[0], app[0])
+        if kept is None:
+            ctx.undecided(fi.short, f"what `{norm(app[0])}` keeps is re-bound on the way")
+        else:
+            ctx.check(kept.startswith("self.gates["), "MP-index-guard", fi, "all other gates are kept unchanged", "", f"kept gates are altered: `{kept}`", app[0])
+    else:
+        ctx.undecided(fi.short, f"{len(app)} places append to result")
 
 
 # ------------------------------------------------------------------------------------- qft / iqft
